@@ -14,6 +14,7 @@ import (
 	"time"
 
 	"github.com/google/mtail/internal/zverif/hsx"
+	"github.com/google/mtail/internal/zverif/shared/promx"
 	"github.com/google/mtail/internal/zverif/shared/rtx"
 	"github.com/google/mtail/internal/zverif/vlib"
 )
@@ -51,6 +52,7 @@ func (o op) String() string {
 type outcome struct {
 	dumps   map[string]string // per program name
 	loaded  map[string]string
+	hidden  string // hash of the full Runtime object graph
 	refused []bool // per op: load refused for a kind clash
 	errs    []string
 	bad     string // engine anomaly
@@ -90,10 +92,15 @@ func execute(ops []op, skip []bool, names []string) outcome {
 			o.refused = append(o.refused, refused)
 			o.errs = append(o.errs, e)
 		}
+		samples, perr := promx.Collect(rt.Store)
+		if perr != nil {
+			o.bad = "exporter: " + perr.Error()
+		}
 		for _, n := range names {
-			o.dumps[n] = rt.DumpProg(n, false)
+			o.dumps[n] = rt.DumpProg(n, false) + "\n-- Prometheus samples with prog=" + n + ":\n" + promx.ForProg(samples, n)
 		}
 		o.loaded = rt.R.VerifHandles()
+		o.hidden = rt.StateDump()
 	})
 	if a := hsx.Anomaly(res); a != "" && o.bad == "" {
 		o.bad = a
@@ -145,7 +152,7 @@ func mkConfig(c *vlib.Ctx, cname string, names []string, vers []int, lines []str
 					continue
 				}
 			}
-			key := ""
+			key := "impl=" + full.hidden + "\n"
 			for _, n := range names {
 				key += fmt.Sprintf("[%s %s]\n%s\n", n, full.loaded[n], full.dumps[n])
 			}
@@ -164,7 +171,7 @@ func mkConfig(c *vlib.Ctx, cname string, names []string, vers []int, lines []str
 					}
 				}
 				if !own {
-					if full.dumps[n] != "" {
+					if !strings.HasPrefix(full.dumps[n], "\n-- Prometheus samples with prog="+n+":\n") || !strings.HasSuffix(full.dumps[n], ":\n") {
 						return hsx.Result{Violation: fmt.Sprintf("history %s\nprogram %s was never loaded but owns metrics:\n%s", hstr, n, full.dumps[n]), VKey: "phantom-metrics " + n + " " + hstr}
 					}
 					continue
@@ -223,5 +230,5 @@ func main() {
 		"a load refused with 'different kind' is treated as the permitted interaction whenever it occurs; the projection then omits that load",
 		"state de-duplication uses the observable state (per-program store contents and the content hash of each running version)",
 	}
-	hsx.Explore(c, "explicit-state BFS over histories of {load(version as name), unload(name), line} on the real Runtime; versions all declare a metric named foo (int counter ×2 sources, float counter, gauge, text, dimensioned counter, one that raises runtime errors, one that does not compile); every transition re-executes the history on a fresh Runtime under the controlled scheduler and compares, per program name, the store contents with those of the history projected onto that name (differential oracle); states are de-duplicated on the observable store + running versions", cfgs...)
+	hsx.Explore(c, "explicit-state BFS over histories of {load(version as name), unload(name), line} on the real Runtime; versions all declare a metric named foo (int counter ×2 sources, float counter, gauge, text, dimensioned counter, one that raises runtime errors, one that does not compile); every transition re-executes the history on a fresh Runtime under the controlled scheduler and compares, per program name, the store contents and the Prometheus samples carrying its prog label (real Collect) with those of the history projected onto that name (differential oracle); states are de-duplicated on the observable store + running versions", cfgs...)
 }
